@@ -1041,9 +1041,14 @@ void DGXMLScanner::scanDocTypeDecl()
                 unsigned int stringId = fGrammarResolver->getStringPool()->addOrFind(srcUsed->getSystemId());
                 const XMLCh* sysIdStr = fGrammarResolver->getStringPool()->getValueForId(stringId);
 
-                fGrammarResolver->orphanGrammar(XMLUni::fgDTDEntityString);
-                ((XMLDTDDescription*) (fGrammar->getGrammarDescription()))->setSystemId(sysIdStr);
-                fGrammarResolver->putGrammar(fGrammar);
+                //  The key of a grammar can only be changed while nobody holds
+                //  the grammar under the old one. A grammar that cannot be taken
+                //  out (it sits in a locked pool) is left alone.
+                Grammar* held = fGrammarResolver->orphanGrammar(XMLUni::fgDTDEntityString);
+                if (held == fGrammar)
+                    ((XMLDTDDescription*) (fGrammar->getGrammarDescription()))->setSystemId(sysIdStr);
+                if (held)
+                    fGrammarResolver->putGrammar(held);
             }
 
             //  In order to make the processing work consistently, we have to
@@ -2128,9 +2133,14 @@ Grammar* DGXMLScanner::loadDTDGrammar(const InputSource& src,
         unsigned int sysId = fGrammarResolver->getStringPool()->addOrFind(src.getSystemId());
         const XMLCh* sysIdStr = fGrammarResolver->getStringPool()->getValueForId(sysId);
 
-        fGrammarResolver->orphanGrammar(XMLUni::fgDTDEntityString);
-        ((XMLDTDDescription*) (fGrammar->getGrammarDescription()))->setSystemId(sysIdStr);
-        fGrammarResolver->putGrammar(fGrammar);
+        //  The key of a grammar can only be changed while nobody holds
+        //  the grammar under the old one. A grammar that cannot be taken
+        //  out (it sits in a locked pool) is left alone.
+        Grammar* held = fGrammarResolver->orphanGrammar(XMLUni::fgDTDEntityString);
+        if (held == fGrammar)
+            ((XMLDTDDescription*) (fGrammar->getGrammarDescription()))->setSystemId(sysIdStr);
+        if (held)
+            fGrammarResolver->putGrammar(held);
     }
 
     //  Handle the creation of the XML reader object for this input source.
